@@ -65,6 +65,9 @@ impl<'a, T> Drop for MutexGuard<'a, T> {
         drop(self.real.take());
         if self.simulated && sim::active() && sim::tid() != usize::MAX {
             sim::mutex_unlock(self.addr);
+            // a thread can be descheduled right after it released a lock, before anything it
+            // does next (dropping a private copy, say)
+            sim::sp(sim::EV_POST, 0);
         }
     }
 }
